@@ -54,7 +54,8 @@ def _get_all_connection_axes(connections, facedim):
     all_axes = []
     for c in connections[facedim].values():
         all_axes.extend(list(c.keys()))
-    return list(set(all_axes))
+    # unique, in order of first appearance (a set would make the order depend on the hash seed)
+    return list(dict.fromkeys(all_axes))
 
 
 def _strip_all_coords(obj: xr.DataArray):
@@ -98,8 +99,19 @@ def _pad_face_connections(
 
     # Detect all the axes we have to deal with during padding
     # all the axes defined in the connections + the axes of the padding width should give all axes we need to iterate over
-    pad_axes = list(
-        set(_get_all_connection_axes(connections, facedim) + list(padding_width.keys()))
+    # iterate in the order of the grid's axes, so that neither the hash seed nor the order in which the
+    # links or the widths are listed decides which axis is padded first (this matters in the corners)
+    axes_to_pad = list(
+        dict.fromkeys(
+            _get_all_connection_axes(connections, facedim) + list(padding_width.keys())
+        )
+    )
+    grid_axes = list(grid.axes)
+    pad_axes = sorted(
+        axes_to_pad,
+        key=lambda axname: (
+            grid_axes.index(axname) if axname in grid_axes else len(grid_axes)
+        ),
     )
 
     padding_width = {axname: padding_width.get(axname, (0, 0)) for axname in pad_axes}
